@@ -298,6 +298,41 @@ func c19(c *Ctx) {
 	for k := range viol {
 		keys = append(keys, k)
 	}
+	// ---- noglobal: no function of the module (API or internal) keeps a reference to a
+	// byte buffer it was handed in a package-level variable (memoisation caches keyed by the
+	// caller's slice, pools). Decided on the K summaries of every function; reported once,
+	// at the function whose own instruction does the storing.
+	nGlob := 0
+	for _, f := range p.SortedFuncs(core.Product) {
+		s := a.Sum[f]
+		if s == nil || f.Synthetic != "" || isInitFunc(f) {
+			continue
+		}
+		for kk, w := range s.K {
+			if kk[1].Kind != effects.RGlobal || kk[0].Kind != effects.RParam || kk[0].Idx >= len(f.Params) {
+				continue
+			}
+			if w.OriginFn != nil && w.OriginFn != f {
+				continue // reported at the origin
+			}
+			if k := trackedKind(f.Params[kk[0].Idx].Type()); k != 1 && k != 2 {
+				continue
+			}
+			nGlob++
+			ofn, opos := originKey(p, w, f)
+			addViol("C19.noretain", fmt.Sprintf("C19.noretain/%s/global %s", ofn, shortDesc(w.OriginDesc, w.Desc)), opos,
+				fmt.Sprintf("keeps a reference to a byte buffer it was handed in package-level state (%s): %s", kk[1], firstNonEmpty(w.OriginDesc, w.Desc)),
+				fmt.Sprintf("%s param %s -> %s", core.FuncID(f), f.Params[kk[0].Idx].Name(), kk[1]))
+		}
+	}
+	r.Counts["byte_params_kept_in_globals"] = nGlob
+	if nGlob == 0 {
+		r.Ok("C19.noretain", "C19.noretain/globals", "-", "no function stores a reference to a byte-buffer parameter into package-level state")
+	}
+	keys = keys[:0]
+	for k := range viol {
+		keys = append(keys, k)
+	}
 	sort.Strings(keys)
 	for _, k := range keys {
 		g := viol[k]
